@@ -36,6 +36,7 @@ type Part struct {
 	Lerr     int     `json:"lerr"`  // error code the leader answers to ListOffsets for this partition
 	Merr     int     `json:"merr"`  // error code reported in metadata for this partition
 	Lerrt    int     `json:"lerrt"` // error code the leader answers to ListOffsets lookups by timestamp (ts >= 0) only
+	Lso      *int64  `json:"lso"`   // last stable offset (start <= lso <= end; absent: end): offsets lso..end-1 belong to open transactions
 }
 
 type Topic struct {
@@ -53,6 +54,7 @@ type Group struct {
 	ID        string   `json:"id"`
 	Coord     int      `json:"coord"`
 	Committed []Commit `json:"committed"`
+	Gerr      int      `json:"gerr"` // error code the coordinator answers to OffsetFetch / OffsetCommit for the whole group (0: none)
 }
 
 type BrokerState struct {
@@ -155,6 +157,7 @@ type env struct {
 	job    *Job
 	net    *fakenet.Net
 	cl     *fakekafka.Cluster
+	ox     *fakekafka.OffsetsExt
 	tr     *kafka.Transport
 	client *kafka.Client
 }
@@ -176,7 +179,9 @@ func build(job *Job) *env {
 		}
 	}
 	cl.Versions = vs
-	cl.Intercept = fakekafka.ExtVersions
+	// last stable offsets / group-level errors of the state; everything else goes on to fakekafka.ExtVersions
+	ox := fakekafka.NewOffsetsExt()
+	cl.Intercept = ox.Intercept
 	for _, ts := range job.CS.Topics {
 		t := cl.AddTopic(ts.Name, len(ts.Parts))
 		for i, ps := range ts.Parts {
@@ -197,10 +202,17 @@ func build(job *Job) *env {
 			}
 			p.LogStart = ps.Start
 			p.HW = ps.End
+			if ps.Lso != nil {
+				if *ps.Lso < ps.Start || *ps.Lso > ps.End {
+					panic(driverErr(fmt.Sprintf("cluster state: last stable offset %d of %s/%d outside [%d, %d]", *ps.Lso, ts.Name, ps.ID, ps.Start, ps.End)))
+				}
+				ox.SetLSO(ts.Name, ps.ID, *ps.Lso)
+			}
 		}
 	}
 	for _, gs := range job.CS.Groups {
 		setGroup(cl, gs.ID, gs.Coord, gs.Committed)
+		ox.SetGroupErr(gs.ID, int16(gs.Gerr))
 	}
 	for _, id := range job.CS.Down {
 		mode := job.CS.DownMode
@@ -215,7 +227,7 @@ func build(job *Job) *env {
 	dialTimeout := 15 * time.Second
 	tr := &kafka.Transport{Dial: n.DialContext, DialTimeout: dialTimeout, ClientID: "offdrv", MetadataTTL: time.Hour}
 	boot := fmt.Sprintf("b%d:9092", job.CS.Brokers[0].ID)
-	return &env{job: job, net: n, cl: cl, tr: tr, client: &kafka.Client{Addr: kafka.TCP(boot), Transport: tr, Timeout: 40 * time.Second}}
+	return &env{job: job, net: n, cl: cl, ox: ox, tr: tr, client: &kafka.Client{Addr: kafka.TCP(boot), Transport: tr, Timeout: 40 * time.Second}}
 }
 
 func setGroup(cl *fakekafka.Cluster, id string, coord int, committed []Commit) {
@@ -503,6 +515,7 @@ type loReq struct {
 
 type loQ struct {
 	Reqs []loReq `json:"reqs"`
+	Iso  int     `json:"iso"` // ListOffsetsRequest.IsolationLevel: 0 ReadUncommitted, 1 ReadCommitted
 }
 
 type loPartA struct {
@@ -525,7 +538,7 @@ type loA struct {
 func (e *env) listOffsets(q *Query) interface{} {
 	var lq loQ
 	mustUnmarshal(q.Q, &lq)
-	req := &kafka.ListOffsetsRequest{Topics: map[string][]kafka.OffsetRequest{}}
+	req := &kafka.ListOffsetsRequest{Topics: map[string][]kafka.OffsetRequest{}, IsolationLevel: kafka.IsolationLevel(lq.Iso)}
 	for _, r := range lq.Reqs {
 		var or kafka.OffsetRequest
 		switch {
@@ -632,6 +645,8 @@ type commitQ struct {
 	Commits []Commit `json:"commits"` // one OffsetCommit request
 	Fetch   []tpList `json:"fetch"`   // OffsetFetch afterwards
 	Ctopic  string   `json:"ctopic"`  // ConsumerOffsets afterwards
+	Gerr    int      `json:"gerr"`    // error code the coordinator answers for the (case-private) group, 0: none
+	Co      *bool    `json:"co"`      // ask ConsumerOffsets afterwards (absent: yes)
 }
 
 type ccPartA struct {
@@ -660,6 +675,7 @@ func (e *env) commit(q *Query) interface{} {
 	var cq commitQ
 	mustUnmarshal(q.Q, &cq)
 	setGroup(e.cl, cq.Group, cq.Coord, cq.Init)
+	e.ox.SetGroupErr(cq.Group, int16(cq.Gerr))
 	req := &kafka.OffsetCommitRequest{GroupID: cq.Group, GenerationID: -1, MemberID: "", Topics: map[string][]kafka.OffsetCommit{}}
 	for _, c := range cq.Commits {
 		req.Topics[c.T] = append(req.Topics[c.T], kafka.OffsetCommit{Partition: c.P, Offset: c.Off, Metadata: "m"})
@@ -682,6 +698,10 @@ func (e *env) commit(q *Query) interface{} {
 		})
 	}
 	a.Fetch = e.fetchOffsets(cq.Group, cq.Fetch)
+	if cq.Co != nil && !*cq.Co {
+		a.Co = coA{Offs: [][2]int64{}}
+		return a
+	}
 	offs, err := e.client.ConsumerOffsets(ctx, kafka.TopicAndGroup{Topic: cq.Ctopic, GroupId: cq.Group})
 	a.Co = coA{Err: errCode(err), Emsg: errMsg(err), Offs: [][2]int64{}}
 	for p, o := range offs {
